@@ -196,6 +196,16 @@ func (ex *Exec) harnessAPI(fr *frame, name string, args []Value) (Value, bool) {
 		iv := ex.sliceTerms(args[2])
 		data := ex.sliceTerms(args[3])
 		return ex.byteSlice(ex.cbcTerm(enc, key, iv, data)), true
+	case "vSameFloat":
+		a, b := args[0].(*Term), args[1].(*Term)
+		if a == b {
+			return tt.Bool(true), true
+		}
+		if a.IsConst() && b.IsConst() {
+			x, y := a.Float(), b.Float()
+			return tt.Bool(x == y || (x != x && y != y)), true
+		}
+		return tt.BOr(tt.FCmp(OFEq, a, b), tt.BAnd(tt.FUn(OFIsNaN, a, 0), tt.FUn(OFIsNaN, b, 0))), true
 	case "vSameFields":
 		a, b := args[0].(Iface), args[1].(Iface)
 		skip := ex.concStr(args[2], "vSameFields skip")
